@@ -503,7 +503,7 @@ Proof.
 Qed.
 
 (* UInt8/16/32/64 List.At(i) *)
-Lemma list_uint_at_safe fu m p i n : msg_ok m -> wf_list m p -> 0 <= i < list_len p -> 0 <= n <= 8 ->
+Lemma list_uint_at_safe fu m p i n : msg_ok m -> wf_list m p -> 0 <= i < list_len p -> 0 <= n ->
   res_sat (list_uint_at fu m p i n)
           (fun v => v = 0 \/ exists a, 0 <= a /\ a + n <= zlen (seg_of m p) /\ v = le_decode (sub (seg_of m p) a n)).
 Proof.
@@ -600,4 +600,108 @@ Proof.
   split; [|lia].
   rewrite <- (firstn_app_exact (rev r) [last]). rewrite <- Hb.
   unfold sub. rewrite firstn_firstn. f_equal. unfold zlen in Hrl. lia.
+Qed.
+
+(* ------------------------------------------------------------------ the generic walker *)
+Fixpoint tree_ok (t : tree) : bool :=
+  match t with
+  | TPanic => false
+  | TStruct _ ps => forallb tree_ok ps
+  | TPtrs _ es => forallb tree_ok es
+  | TComp _ _ es => forallb tree_ok es
+  | _ => true
+  end.
+
+Lemma forallb_Forall {A} (f : A -> bool) l : Forall (fun x => f x = true) l -> forallb f l = true.
+Proof. induction 1; cbn; [reflexivity|]. rewrite H, IHForall. reflexivity. Qed.
+
+Lemma iter_rl_Forall {A} (P : A -> Prop) (f : Z -> Z -> A * Z) : forall n i rl,
+  (forall j rl0, i <= j < i + Z.of_nat n -> P (fst (f j rl0))) ->
+  Forall P (fst (iter_rl n i rl f)).
+Proof.
+  induction n as [|n IH]; intros i rl H; cbn [iter_rl].
+  - constructor.
+  - destruct (f i rl) as [a rl1] eqn:Ef.
+    specialize (IH (i + 1) rl1 ltac:(intros j rl0 Hj; apply H; lia)).
+    destruct (iter_rl n (i + 1) rl1 f) as [r rl2]. cbn [fst] in *.
+    constructor; [|assumption]. specialize (H i rl ltac:(lia)). rewrite Ef in H. exact H.
+Qed.
+
+Lemma collect_nopanic {A} (f : Z -> res A) (d : A) n :
+  (forall j, 0 <= j < Z.of_nat n -> f j <> Panic) -> collect n f d <> Panic.
+Proof.
+  unfold collect.
+  assert (forall k i, (forall j, i <= j < i + Z.of_nat k -> f j <> Panic) ->
+            (fix go (k : nat) (i : Z) {struct k} : res (list A) :=
+               match k with
+               | O => Ok []
+               | S k' => do a <- f i; do r <- go k' (i + 1); Ok (a :: r)
+               end) k i <> Panic) as G.
+  { induction k as [|k IH]; intros i H; [discriminate|].
+    specialize (IH (i + 1) ltac:(intros j Hj; apply H; lia)).
+    specialize (H i ltac:(lia)).
+    destruct (f i); cbn [bind]; [|discriminate|congruence].
+    match goal with |- bind ?x _ <> _ => destruct x end; cbn [bind]; [discriminate|discriminate|congruence]. }
+  intros H. apply G. intros j Hj. apply H. lia.
+Qed.
+
+Lemma cap_count_le n cap j : 0 <= j < Z.of_nat (cap_count n cap) -> 0 <= j < n.
+Proof. unfold cap_count. lia. Qed.
+
+Lemma walk_safe c fx m dcap pcap : msg_ok m -> cfg_strict c = true -> fx_bit fx = true ->
+  forall fuel rl r, res_sat r (wf_ptr m) -> tree_ok (fst (walk c fx m dcap pcap fuel rl r)) = true.
+Proof.
+  intros Hm Hc Hfb. induction fuel as [|f IH]; intros rl r Hr.
+  - destruct r as [p| |]; cbn [walk]; [|reflexivity|destruct Hr].
+    destruct (p_valid p); reflexivity.
+  - destruct r as [p| |]; cbn [walk]; [|reflexivity|destruct Hr]. cbn [res_sat] in Hr.
+    destruct (p_valid p) eqn:V; cbn [negb]; [|reflexivity].
+    destruct (p_kind p) eqn:K.
+    + (* struct *)
+      assert (wf_struct m p) as Hws by (split; [assumption|intros _; assumption]).
+      destruct (wf_struct_inv m p Hws V) as (_ & Hz & _). unfold wf_size in Hz.
+      pose proof (collect_nopanic (fun o => struct_uint m p o 1) 0 (cap_count (DataSize (p_size p)) dcap)) as Hcol.
+      destruct (collect _ _ _) as [data| |]; [|reflexivity|].
+      * match goal with |- context [iter_rl ?n ?i ?rl ?g] =>
+          pose proof (iter_rl_Forall (fun t => tree_ok t = true) g n i rl) as Hit;
+          destruct (iter_rl n i rl g) as [ps rl'] end.
+        cbn [fst tree_ok]. apply forallb_Forall. apply Hit. intros j rl0 Hj.
+        pose proof (struct_ptr_safe c m rl0 p j Hm Hws ltac:(lia)) as Hq.
+        destruct (struct_ptr c m rl0 p j) as [q rl1]. cbn [fst] in Hq.
+        apply IH. eapply res_sat_weaken; [exact Hq|]. intros a Ha. apply Ha. assumption.
+      * exfalso. apply Hcol; [|reflexivity]. intros j Hj. apply cap_count_le in Hj.
+        apply struct_uint_safe; try assumption; lia.
+    + (* list *)
+      assert (wf_list m p) as Hwl by (split; [assumption|intros _; assumption]).
+      assert (forall j, 0 <= j < Z.of_nat (cap_count (p_len p) pcap) -> 0 <= j < list_len p) as Hidx.
+      { intros j Hj. apply cap_count_le in Hj. unfold list_len. rewrite V. assumption. }
+      cbv zeta. destruct (p_bit p) eqn:Hb.
+      { pose proof (collect_nopanic (fun i => bitlist_at (fx_bit fx) m p i) false (cap_count (p_len p) pcap)) as Hcol.
+        destruct (collect _ _ _); [reflexivity|reflexivity|].
+        exfalso. apply Hcol; [|reflexivity]. intros j Hj. rewrite Hfb.
+        apply bitlist_at_safe; auto. }
+      destruct (p_comp p) eqn:Hcomp.
+      { match goal with |- context [iter_rl ?n ?i ?rl ?g] =>
+          pose proof (iter_rl_Forall (fun t => tree_ok t = true) g n i rl) as Hit;
+          destruct (iter_rl n i rl g) as [ps rl'] end.
+        cbn [fst tree_ok]. apply forallb_Forall. apply Hit. intros j rl0 Hj.
+        apply IH. eapply res_sat_weaken; [apply (list_struct_safe (fx_depth fx) m p j Hm Hwl (Hidx j Hj))|].
+        intros a [Ha _]. exact Ha. }
+      destruct (0 <? PointerCount (p_size p)) eqn:Hpc.
+      { match goal with |- context [iter_rl ?n ?i ?rl ?g] =>
+          pose proof (iter_rl_Forall (fun t => tree_ok t = true) g n i rl) as Hit;
+          destruct (iter_rl n i rl g) as [ps rl'] end.
+        cbn [fst tree_ok]. apply forallb_Forall. apply Hit. intros j rl0 Hj.
+        pose proof (ptrlist_at_safe c (fx_upgrade fx) m rl0 p j Hm Hwl (Hidx j Hj)) as Hq.
+        destruct (ptrlist_at c (fx_upgrade fx) m rl0 p j) as [q rl1]. cbn [fst] in Hq.
+        apply IH. eapply res_sat_weaken; [exact Hq|]. intros a Ha. apply Ha. assumption. }
+      destruct (DataSize (p_size p) =? 0) eqn:Hw0; [reflexivity|].
+      destruct (wf_list_inv m p Hwl V) as (_ & _ & _ & Hr'). rewrite Hb in Hr'. destruct Hr' as [[Hz _] _].
+      pose proof (collect_nopanic (fun i => list_uint_at (fx_upgrade fx) m p i (DataSize (p_size p))) 0
+                    (cap_count (p_len p) pcap)) as Hcol.
+      destruct (collect _ _ _); [reflexivity|reflexivity|].
+      exfalso. apply Hcol; [|reflexivity]. intros j Hj.
+      pose proof (list_uint_at_safe (fx_upgrade fx) m p j (DataSize (p_size p)) Hm Hwl (Hidx j Hj) ltac:(lia)) as H.
+      intros E. rewrite E in H. exact H.
+    + reflexivity.
 Qed.
